@@ -97,8 +97,15 @@ impl LocalSpan {
     {
         #[cfg(feature = "enable")]
         if let Some(LocalSpanInner { stack, span_handle }) = &self.inner {
-            let span_stack = &mut *stack.borrow_mut();
-            span_stack.with_properties(span_handle, properties);
+            // The closure is user code and may call back into the tracing API, so it must not
+            // run while the span stack is borrowed.
+            let is_recording = stack.borrow_mut().is_recording_span(span_handle);
+            if is_recording {
+                let properties = collect_properties(properties());
+                stack
+                    .borrow_mut()
+                    .with_properties(span_handle, move || properties);
+            }
         }
 
         self
@@ -150,8 +157,12 @@ impl LocalSpan {
         {
             LOCAL_SPAN_STACK
                 .try_with(|s| {
-                    let span_stack = &mut s.borrow_mut();
-                    span_stack.add_properties(properties);
+                    // See `with_properties`: evaluate the closure outside of the borrow.
+                    let is_recording = s.borrow_mut().is_recording();
+                    if is_recording {
+                        let properties = collect_properties(properties());
+                        s.borrow_mut().add_properties(move || properties);
+                    }
                     Some(())
                 })
                 .ok();
@@ -176,6 +187,19 @@ impl LocalSpan {
                 .ok();
         }
     }
+}
+
+#[cfg(feature = "enable")]
+fn collect_properties<K, V, I>(properties: I) -> Vec<(Cow<'static, str>, Cow<'static, str>)>
+where
+    K: Into<Cow<'static, str>>,
+    V: Into<Cow<'static, str>>,
+    I: IntoIterator<Item = (K, V)>,
+{
+    properties
+        .into_iter()
+        .map(|(k, v)| (k.into(), v.into()))
+        .collect()
 }
 
 #[cfg(feature = "enable")]
